@@ -238,18 +238,25 @@ func (d *Dest) replyLoop(ctx context.Context, st *dstStream, run int) {
 			acks = append(acks, pconnector.DestinationRunResponseAck{Position: r.pos, Error: e})
 		}
 		shape := ""
-		if d.Cfg.Reply != "" && d.Cfg.ReplyAt == d.replies {
+		if d.Cfg.Reply != "" && (d.Cfg.ReplyAt == d.replies || d.Cfg.ReplyAt == 0) {
 			shape = d.Cfg.Reply
 		}
+		if shape == "ooo" && len(acks) < 2 {
+			shape = "" // reversing a single ack is the well-formed reply
+		}
+		real := len(acks) // acks[:real] answer the written records recs[:real]
 		closeErr := false
 		switch shape {
 		case "empty":
+			// an empty ack list answers nothing: the written records stay unanswered
 			acks = nil
+			d.pending = append(append([]pendingRec(nil), recs...), d.pending...)
 		case "more":
 			acks = append(acks, pconnector.DestinationRunResponseAck{Position: opencdc.Position("bogus-9999")})
 		case "ooo":
 			for i, j := 0, len(acks)-1; i < j; i, j = i+1, j-1 {
 				acks[i], acks[j] = acks[j], acks[i]
+				recs[i], recs[j] = recs[j], recs[i]
 			}
 		case "wrongpos":
 			if len(acks) > 0 {
@@ -268,7 +275,12 @@ func (d *Dest) replyLoop(ctx context.Context, st *dstStream, run int) {
 		// env -> engine input: logged before it is handed over. With an ill-formed shape the
 		// per-record outcome is not a confirmation of anything: log it as IllReply instead.
 		for i, a := range acks {
-			if shape != "" {
+			// an answer that names a written record's own position IS that destination's outcome for
+			// that record, even if it arrives out of order or next to a bogus one; everything else
+			// (a bogus position, a surplus ack) confirms nothing
+			bogus := i >= real || i >= len(recs) || string(a.Position) != string(recs[i].pos) ||
+				shape == "empty" || shape == "closeerr"
+			if bogus {
 				d.W.Log.Add("IllReply", "conn", d.Cfg.ID, "pos", string(a.Position), "shape", shape)
 				continue
 			}
